@@ -208,7 +208,7 @@ package memfs
 //@   ensures[C01,C05,C07] child != nil ==> parent != nil
 //@   ensures[C01,C05,C07] child == nil ==> err == vfs.err.NoSuchDir || err == vfs.err.NoSuchFile
 //@   ensures[C01,C05,C07] child == nil && parent != nil ==> piOnPart(pi)
-//@   ensures[C01,C05,C07] piOnPart(pi) || (child is *dirNode && child.(*dirNode) == parent && pi.start == pi.end)
+//@   ensures[C01,C05,C07] parent == nil || piOnPart(pi) || (child is *dirNode && child.(*dirNode) == parent && pi.start == pi.end)
 //@   ensures[C01,C05] child == nil && parent != nil ==> (err == vfs.err.NoSuchFile <==> pi.end == len(pi.path)) || vfs.err.NoSuchFile == vfs.err.NoSuchDir
 //@   ensures[C04] err == vfs.err.FileExists && child is *symlinkNode ==> slMode == slmLstat
 //@   ensures[C11] pi.vfs == vfs
